@@ -734,7 +734,8 @@ Section XEvalL.
         rewrite same_shapes_refl. now apply (scal_ok_eval i si pp El).
       + (* rotation *) destruct (ilookup info i) as [pp|]; [|discriminate]. now apply rot_ok_eval.
       + (* HWP *) now rewrite Hg.
-      + (* polariser *) destruct (pol_eval x64 si) as [s'|]; [|discriminate]. apply struct_eqb_eq in Hg. now subst.
+      + (* polariser *) apply andb_true_iff in Hg as [_ Hg].
+        destruct (pol_eval x64 si) as [s'|]; [|discriminate]. apply struct_eqb_eq in Hg. now subst.
       + (* Toeplitz *) destruct (ilookup info i) as [pp|]; [|discriminate]. now apply toep_ok_eval.
     - (* lazy wrappers *)
       rewrite wrap_in, wrap_out. cbn [Structs.params_not_wider] in Hg. apply andb_true_iff in Hg as [Hgx Hgw].
